@@ -47,29 +47,29 @@ Section Typed.
   Notation st_segs := NormDomain.fl_segs.
 
   (* in the domain, each part under its own side condition: the gate given the bounds; printable and
-     float-stable given the literals; reparsable (standard level) given the bare selectors *)
+     float-stable given the literals; reparsable outright *)
   Definition OK (e : fexpr) : Prop :=
     (bd_expr lo hi e = true -> gate_expr e = true) /\
     (lt_expr ro e = true -> pr_expr ro e = true /\ st_expr e = true) /\
-    (ext = false -> bk_expr e = true -> rp_expr E e = true).
+    rp_expr E e = true.
   Definition OKsel (s : selector) : Prop :=
     (bd_sel lo hi s = true -> gate_sel s = true) /\
     (lt_sel ro s = true -> pr_sel ro s = true /\ st_sel s = true) /\
-    (ext = false -> bk_sel s = true -> rp_sel E s = true).
+    rp_sel E s = true.
   Definition OKsels (l : sels) : Prop :=
     (bd_sels lo hi l = true -> gate_sels l = true) /\
     (lt_sels ro l = true -> pr_sels ro l = true /\ st_sels l = true) /\
-    (ext = false -> bk_sels l = true -> rp_sels E l = true).
+    rp_sels E l = true.
   Definition OKseg (g : segment) : Prop :=
     (bd_seg lo hi g = true -> gate_seg g = true) /\
     (lt_seg ro g = true -> pr_seg ro g = true /\ st_seg g = true) /\
-    (ext = false -> bk_seg g = true -> rp_seg E g = true).
+    rp_seg E g = true.
   Definition OKsegs (p : segs) : Prop :=
     (bd_segs lo hi p = true -> gate_segs p = true) /\
     (lt_segs ro p = true -> pr_segs ro p = true /\ st_segs p = true) /\
-    (ext = false -> bk_segs p = true -> rp_segs E p = true).
+    rp_segs E p = true.
 
-  Ltac ok_triv := (split; [intros _; reflexivity|split; [intros _; split; reflexivity|intros _ _; reflexivity]]).
+  Ltac ok_triv := (split; [intros _; reflexivity|split; [intros _; split; reflexivity|reflexivity]]).
 
   (* ---- building blocks ---- *)
 
@@ -97,14 +97,12 @@ Section Typed.
       apply andb_true_iff in Hl as [L1 L2]. destruct (Hpl L1) as [P1 S1]. destruct (Hpr L2) as [P2 S2].
       change (pr_expr ro (FInfix l o r)) with (pr_expr ro l && pr_expr ro r).
       change (st_expr (FInfix l o r)) with (st_expr l && st_expr r). rewrite P1, P2, S1, S2. split; reflexivity.
-    - intros He Hk. change (bk_expr (FInfix l o r)) with (bk_expr l && bk_expr r) in Hk.
-      apply andb_true_iff in Hk as [K1 K2]. change (rp_expr E (FInfix l o r)) with (rp_expr E l && rp_expr E r).
-      rewrite (Hrl He K1), (Hrr He K2). reflexivity.
+    - change (rp_expr E (FInfix l o r)) with (rp_expr E l && rp_expr E r). rewrite Hrl, Hrr. reflexivity.
   Qed.
 
   Lemma OK_func1 name a ty t :
     gate_sig name = Some ([ty], t) -> fname_ok name = true ->
-    OK a -> g_arg_ok ty a = true -> (ext = false -> arg_form a = true) ->
+    OK a -> g_arg_ok ty a = true -> arg_form a = true ->
     OK (FFunc name (ECons a ENil)).
   Proof.
     intros Hsig Hn (Hg & Hp & Hr) Harg Haf. split; [|split].
@@ -115,16 +113,14 @@ Section Typed.
       rewrite andb_true_r in Hl. destruct (Hp Hl) as [P1 S1].
       change (pr_expr ro (FFunc name (ECons a ENil))) with (fname_ok name && (pr_expr ro a && true)).
       change (st_expr (FFunc name (ECons a ENil))) with (st_expr a && true). rewrite Hn, P1, S1. split; reflexivity.
-    - intros He Hk. change (bk_expr (FFunc name (ECons a ENil))) with (bk_expr a && true) in Hk.
-      rewrite andb_true_r in Hk.
-      change (rp_expr E (FFunc name (ECons a ENil))) with (arg_form a && rp_expr E a && true).
-      rewrite (Haf He), (Hr He Hk). reflexivity.
+    - change (rp_expr E (FFunc name (ECons a ENil))) with (arg_form a && rp_expr E a && true).
+      rewrite Haf, Hr. reflexivity.
   Qed.
 
   Lemma OK_func2 name a b t1 t2 t :
     gate_sig name = Some ([t1; t2], t) -> fname_ok name = true ->
-    OK a -> g_arg_ok t1 a = true -> (ext = false -> arg_form a = true) ->
-    OK b -> g_arg_ok t2 b = true -> (ext = false -> arg_form b = true) ->
+    OK a -> g_arg_ok t1 a = true -> arg_form a = true ->
+    OK b -> g_arg_ok t2 b = true -> arg_form b = true ->
     OK (FFunc name (ECons a (ECons b ENil))).
   Proof.
     intros Hsig Hn (Hg & Hp & Hr) Harg Haf (Hg' & Hp' & Hr') Harg' Haf'. split; [|split].
@@ -141,11 +137,9 @@ Section Typed.
         with (fname_ok name && (pr_expr ro a && (pr_expr ro b && true))).
       change (st_expr (FFunc name (ECons a (ECons b ENil)))) with (st_expr a && (st_expr b && true)).
       rewrite Hn, P1, P2, S1, S2. split; reflexivity.
-    - intros He Hk. change (bk_expr (FFunc name (ECons a (ECons b ENil)))) with (bk_expr a && (bk_expr b && true)) in Hk.
-      rewrite andb_true_r in Hk. apply andb_true_iff in Hk as [K1 K2].
-      change (rp_expr E (FFunc name (ECons a (ECons b ENil))))
+    - change (rp_expr E (FFunc name (ECons a (ECons b ENil))))
         with (arg_form a && rp_expr E a && (arg_form b && rp_expr E b && true)).
-      rewrite (Haf He), (Hr He K1), (Haf' He), (Hr' He K2). reflexivity.
+      rewrite Haf, Hr, Haf', Hr'. reflexivity.
   Qed.
 
   Lemma literals_OK items :
@@ -172,7 +166,7 @@ Section Typed.
   Definition Pe (e : fexpr) : Prop :=
     (wt_logical ext e = true -> OK e /\ g_testable e = true) /\
     (wt_comparable ext e = true ->
-       OK e /\ g_comparable e = true /\ g_arg_ok GValue e = true /\ (ext = false -> arg_form e = true)) /\
+       OK e /\ g_comparable e = true /\ g_arg_ok GValue e = true /\ (is_undefined e = false -> arg_form e = true)) /\
     (wt_nodes ext e = true -> OK e /\ g_arg_ok GNodes e = true /\ arg_form e = true) /\
     (wt_member ext e = true -> OK e).
 
@@ -194,14 +188,14 @@ Section Typed.
   Lemma OK_query (mk : segs -> fexpr) p :
     (forall q, gate_expr (mk q) = gate_segs q /\ pr_expr ro (mk q) = pr_segs ro q /\
                st_expr (mk q) = st_segs q /\ rp_expr E (mk q) = rp_segs E q) ->
-    (forall q, bd_expr lo hi (mk q) = bd_segs lo hi q /\ lt_expr ro (mk q) = lt_segs ro q /\ bk_expr (mk q) = bk_segs q) ->
+    (forall q, bd_expr lo hi (mk q) = bd_segs lo hi q /\ lt_expr ro (mk q) = lt_segs ro q) ->
     OKsegs p -> OK (mk p).
   Proof.
-    intros Hmk Hd (Hg & Hp & Hr). destruct (Hmk p) as (E1 & E2 & E3 & E4). destruct (Hd p) as (D1 & D2 & D3).
+    intros Hmk Hd (Hg & Hp & Hr). destruct (Hmk p) as (E1 & E2 & E3 & E4). destruct (Hd p) as (D1 & D2).
     split; [|split].
     - rewrite D1, E1. exact Hg.
     - rewrite D2, E2, E3. exact Hp.
-    - rewrite D3, E4. exact Hr.
+    - rewrite E4. exact Hr.
   Qed.
 
   (* FSelf, FRoot, FCtx *)
@@ -210,7 +204,7 @@ Section Typed.
                st_expr (mk q) = st_segs q /\ rp_expr E (mk q) = rp_segs E q) ->
     (forall q, g_is_query (mk q) = true /\ g_query_segs (mk q) = q /\ g_returns (mk q) = None /\
                g_is_literal (mk q) = false /\ arg_form (mk q) = true) ->
-    (forall q, bd_expr lo hi (mk q) = bd_segs lo hi q /\ lt_expr ro (mk q) = lt_segs ro q /\ bk_expr (mk q) = bk_segs q) ->
+    (forall q, bd_expr lo hi (mk q) = bd_segs lo hi q /\ lt_expr ro (mk q) = lt_segs ro q) ->
     wt_logical ext (mk p) = guard && wt_segs ext p -> wt_comparable ext (mk p) = guard && singular p ->
     wt_nodes ext (mk p) = guard && wt_segs ext p ->
     (wt_member ext (mk p) = true -> wt_segs ext p = true) ->
@@ -242,7 +236,7 @@ Section Typed.
 
   Lemma OK_regex p fl : OK (FRegex p fl).
   Proof.
-    split; [intros _; reflexivity|split; [|intros _ _; reflexivity]].
+    split; [intros _; reflexivity|split; [|reflexivity]].
     intros Hl. split; [exact Hl|reflexivity].
   Qed.
 
@@ -281,7 +275,7 @@ Section Typed.
     split; [|split].
     - intros _. rewrite gate_expr_list. exact Hg.
     - exact Hps.
-    - intros _ _. reflexivity.
+    - reflexivity.
   Qed.
 
   Lemma case_FFunc name args : Pes args -> Pe (FFunc name args).
@@ -293,7 +287,8 @@ Section Typed.
     { intros Hw. rewrite wt_comparable_func in Hw.
       destruct (ustr_eqb name tname_length) eqn:HL.
       - apply ustr_eqb_spec in HL. subst name. destruct args as [|a [|b r]]; try discriminate Hw.
-        destruct IH as [(_ & Hc & _) _]. destruct (Hc Hw) as (Oa & _ & Aa & Fa).
+        destruct IH as [(_ & Hc & _) _]. destruct (wt_arg_comparable ext a Hw) as [Hwc Hnu].
+        destruct (Hc Hwc) as (Oa & _ & Aa & Fa).
         split; [|split; reflexivity]. apply (OK_func1 tname_length a GValue GValue); auto.
       - destruct (ustr_eqb name tname_count || ustr_eqb name tname_value) eqn:HC; [|discriminate Hw].
         destruct args as [|a [|b r]]; try discriminate Hw. destruct IH as [(_ & _ & Hn & _) _].
@@ -306,11 +301,13 @@ Section Typed.
       intros Hw. rewrite wt_logical_func in Hw. apply andb_true_iff in Hw as [Hname Hw].
       destruct args as [|a [|b [|c r]]]; try discriminate Hw. apply andb_true_iff in Hw as [Hwa Hwb].
       destruct IH as ((_ & Hca & _) & (_ & Hcb & _) & _).
-      destruct (Hca Hwa) as (Oa & _ & Aa & Fa). destruct (Hcb Hwb) as (Ob & _ & Ab & Fb).
+      destruct (wt_arg_comparable ext a Hwa) as [Hwa' Hna]. destruct (wt_arg_comparable ext b Hwb) as [Hwb' Hnb].
+      destruct (Hca Hwa') as (Oa & _ & Aa & Fa). destruct (Hcb Hwb') as (Ob & _ & Ab & Fb).
       apply orb_true_iff in Hname as [Hn|Hn]; apply ustr_eqb_spec in Hn; subst name.
       + split; [|reflexivity]. apply (OK_func2 tname_match a b GValue GValue GLogical); auto.
       + split; [|reflexivity]. apply (OK_func2 tname_search a b GValue GValue GLogical); auto.
-    - intros Hw. destruct (Hval Hw) as (HO & Hc & Ha). repeat split; try apply HO; assumption.
+    - intros Hw. destruct (Hval Hw) as (HO & Hc & Ha). split; [exact HO|]. split; [exact Hc|]. split; [exact Ha|].
+      intros _. reflexivity.
     - intros H. discriminate H.
     - intros Hw. rewrite wt_member_func in Hw. exact (proj1 (Hval Hw)).
   Qed.
@@ -329,7 +326,7 @@ Section Typed.
   Lemma case_SSlice a b c : Psel (SSlice a b c).
   Proof.
     intros _. split; [intros Hb; exact Hb|split; [intros _; split; reflexivity|]].
-    intros _ _. cbn [rp_sel]. destruct c; [reflexivity|exact H1].
+    cbn [rp_sel]. destruct c; [reflexivity|exact H1].
   Qed.
 
   Lemma case_LCons s r : Psel s -> Psels r -> Psels (LCons s r).
@@ -343,22 +340,18 @@ Section Typed.
       apply andb_true_iff in Hl as [L1 L2]. destruct (Hp L1) as [P1 S1]. destruct (Hp' L2) as [P2 S2].
       change (pr_sels ro (LCons s r)) with (pr_sel ro s && pr_sels ro r).
       change (st_sels (LCons s r)) with (st_sel s && st_sels r). rewrite P1, P2, S1, S2. split; reflexivity.
-    - intros He Hk. change (bk_sels (LCons s r)) with (bk_sel s && bk_sels r) in Hk.
-      apply andb_true_iff in Hk as [K1 K2]. change (rp_sels E (LCons s r)) with (rp_sel E s && rp_sels E r).
-      rewrite (Hr He K1), (Hr' He K2). reflexivity.
+    - change (rp_sels E (LCons s r)) with (rp_sel E s && rp_sels E r). rewrite Hr, Hr'. reflexivity.
   Qed.
 
   Lemma case_GSel s : Psel s -> Pseg (GSel s).
   Proof.
     intros IH Hw. rewrite wt_seg_sel in Hw.
-    assert (Hs : wt_sel ext s = true) by (destruct s; try exact Hw; discriminate Hw).
+    assert (Hs : wt_sel ext s = true) by (destruct s; try discriminate Hw; try reflexivity; exact Hw).
+    assert (Hbare : bare_form s = true) by (destruct s; try discriminate Hw; reflexivity).
     destruct (IH Hs) as (Hg & Hp & Hr). split; [|split].
     - intros Hb. rewrite gate_seg_sel. exact (Hg Hb).
     - exact Hp.
-    - intros He Hk.
-      assert (Hbare : bare_form s = true) by (destruct s; try reflexivity; discriminate Hk).
-      assert (Hk' : bk_sel s = true) by (destruct s; try reflexivity; discriminate Hk).
-      change (rp_seg E (GSel s)) with (bare_form s && rp_sel E s). rewrite Hbare, (Hr He Hk'). reflexivity.
+    - change (rp_seg E (GSel s)) with (bare_form s && rp_sel E s). rewrite Hbare, Hr. reflexivity.
   Qed.
 
   Lemma case_GList items : Psels items -> Pseg (GList items).
@@ -381,9 +374,7 @@ Section Typed.
       apply andb_true_iff in Hl as [L1 L2]. destruct (Hp L1) as [P1 S1]. destruct (Hp' L2) as [P2 S2].
       change (pr_segs ro (PCons g r)) with (pr_seg ro g && pr_segs ro r).
       change (st_segs (PCons g r)) with (st_seg g && st_segs r). rewrite P1, P2, S1, S2. split; reflexivity.
-    - intros He Hk. change (bk_segs (PCons g r)) with (bk_seg g && bk_segs r) in Hk.
-      apply andb_true_iff in Hk as [K1 K2]. change (rp_segs E (PCons g r)) with (rp_seg E g && rp_segs E r).
-      rewrite (Hr He K1), (Hr' He K2). reflexivity.
+    - change (rp_segs E (PCons g r)) with (rp_seg E g && rp_segs E r). rewrite Hr, Hr'. reflexivity.
   Qed.
 
   Theorem typed_all :
@@ -395,12 +386,12 @@ Section Typed.
     - (* FUndefined *)
       split; [intros H; discriminate H|]. split; [|split; intros H; discriminate H].
       intros Hw. change (wt_comparable ext FUndefined) with ext in Hw.
-      split; [ok_triv|]. split; [reflexivity|]. split; [reflexivity|]. intros He. rewrite He in Hw. discriminate Hw.
+      split; [ok_triv|]. split; [reflexivity|]. split; [reflexivity|]. intros He. discriminate He.
     - intros b. apply lit_case; try reflexivity. ok_triv.
     - intros z. apply lit_case; try reflexivity. ok_triv.
     - (* FFloat *)
       intros n. apply lit_case; try reflexivity.
-      split; [intros _; reflexivity|split; [|intros _ _; reflexivity]].
+      split; [intros _; reflexivity|split; [|reflexivity]].
       intros Hl. change (lt_expr ro (FFloat n)) with (float_ok n && float_stable n) in Hl.
       apply andb_true_iff in Hl. exact Hl.
     - intros s. apply lit_case; try reflexivity. ok_triv.
@@ -423,7 +414,7 @@ Section Typed.
     - exact I.
     - intros e He r Hr. split; assumption.
     - intros name _. ok_triv.
-    - intros i _. split; [intros Hb; exact Hb|split; [intros _; split; reflexivity|intros _ _; reflexivity]].
+    - intros i _. split; [intros Hb; exact Hb|split; [intros _; split; reflexivity|reflexivity]].
     - exact case_SSlice.
     - intros _. ok_triv.
     - intros _. ok_triv.
@@ -444,7 +435,7 @@ Lemma typed_segs (ext : bool) lo hi ro E p :
   one_in_range E = true -> wt_segs ext p = true ->
   (bd_segs lo hi p = true -> gate_segs lo hi p = true) /\
   (lt_segs ro p = true -> pr_segs ro p = true /\ NormDomain.fl_segs p = true) /\
-  (ext = false -> bk_segs p = true -> rp_segs E p = true).
+  rp_segs E p = true.
 Proof.
   intros H1 Hw. destruct (typed_all ext lo hi ro E H1) as (_ & _ & _ & _ & _ & H). exact (H p Hw).
 Qed.
@@ -506,102 +497,122 @@ Proof.
   exact (proj1 (proj2 (typed_segs false 0 0 ro default_env _ eq_refl Hw)) Hl).
 Qed.
 
-(* the selectors standing alone at path level must be of the forms the grammar has (NormDomain.bare_ok):
-   the typing transcription also types GSel (SIndex _) and GSel (SFilter _), which no text denotes *)
 Theorem std_reparsable :
   forall (E : env) (q : query),
     in_range (e_min_index E) (e_max_index E) 1%Z = true ->
-    std_query q = true -> bare_ok q = true -> reparsable E q = true.
+    std_query q = true -> reparsable E q = true.
 Proof.
-  intros E q H1 Hs Hb. destruct (std_query_wt q Hs) as [Hw Hr].
-  unfold bare_ok in Hb. unfold reparsable. rewrite Hr in *. cbn [forallb] in *. rewrite andb_true_r in *.
-  exact (proj2 (proj2 (typed_segs false 0 0 (fun _ => None) E _ H1 Hw)) eq_refl Hb).
+  intros E q H1 Hs. destruct (std_query_wt q Hs) as [Hw Hr].
+  unfold reparsable. rewrite Hr. cbn [forallb]. rewrite andb_true_r.
+  exact (proj2 (proj2 (typed_segs false 0 0 (fun _ => None) E _ H1 Hw))).
+Qed.
+
+Theorem ext_reparsable :
+  forall (E : env) (q : query),
+    in_range (e_min_index E) (e_max_index E) 1%Z = true ->
+    ext_query q = true -> reparsable E q = true.
+Proof.
+  intros E q H1 Hs. unfold ext_query in Hs. apply andb_true_iff in Hs as [Hp Hr].
+  unfold reparsable.
+  rewrite (proj2 (proj2 (typed_segs true 0 0 (fun _ => None) E _ H1 (ext_path_wt _ Hp)))). cbn [andb].
+  apply forallb_forall. intros op Hin. rewrite forallb_forall in Hr.
+  exact (proj2 (proj2 (typed_segs true 0 0 (fun _ => None) E _ H1 (ext_path_wt _ (Hr op Hin))))).
 Qed.
 
 Theorem std_domain :
   forall (E : env) ro (q : query),
     in_range (e_min_index E) (e_max_index E) 1%Z = true ->
-    std_query q = true -> bare_ok q = true ->
+    std_query q = true ->
     bounds_ok (e_min_index E) (e_max_index E) q = true -> TypedDomain.literals_ok ro q = true ->
     c10_domain E ro q = true.
 Proof.
-  intros E ro q H1 Hs Hb Hbd Hl. unfold c10_domain.
+  intros E ro q H1 Hs Hbd Hl. unfold c10_domain.
   rewrite (std_gate _ _ q Hs Hbd). destruct (std_printable ro q Hs Hl) as [-> ->].
-  rewrite (std_reparsable E q H1 Hs Hb). reflexivity.
+  rewrite (std_reparsable E q H1 Hs). reflexivity.
 Qed.
 
-(* with the extensions, `undefined` is typed as a function argument, which the parser refuses: the
-   reparsable condition stays an explicit premise at that level *)
 Theorem ext_domain :
   forall (E : env) ro (q : query),
-    ext_query q = true -> reparsable E q = true ->
+    in_range (e_min_index E) (e_max_index E) 1%Z = true ->
+    ext_query q = true ->
     bounds_ok (e_min_index E) (e_max_index E) q = true -> TypedDomain.literals_ok ro q = true ->
     c10_domain E ro q = true.
 Proof.
-  intros E ro q Hs Hr Hbd Hl. unfold c10_domain.
-  rewrite (ext_gate _ _ q Hs Hbd). destruct (ext_printable ro q Hs Hl) as [-> ->]. rewrite Hr. reflexivity.
+  intros E ro q H1 Hs Hbd Hl. unfold c10_domain.
+  rewrite (ext_gate _ _ q Hs Hbd). destruct (ext_printable ro q Hs Hl) as [-> ->].
+  rewrite (ext_reparsable E q H1 Hs). reflexivity.
 Qed.
 
-(* (3) every spelling of a well-typed standard query compiles, to the query it spells *)
+(* (3) every spelling of a well-typed query compiles, to the query it spells *)
 Theorem std_accept :
   forall (E : env) re_ok (q : query) (t : ustr),
     tokens_ok E = true -> e_well_typed E = true -> e_unicode_escape E = true ->
     in_range (e_min_index E) (e_max_index E) 1%Z = true ->
-    std_query q = true -> bare_ok q = true ->
+    std_query q = true ->
     bounds_ok (e_min_index E) (e_max_index E) q = true -> TypedDomain.literals_ok re_ok q = true ->
     spells E q t ->
     exists q', compile E re_ok t = Ok q' /\ norm_query q' = norm_query q.
 Proof.
-  intros E ro q t HT WT UE H1 Hs Hb Hbd Hl Hsp.
-  exact (free_spelling E ro q t HT WT UE (std_domain E ro q H1 Hs Hb Hbd Hl) Hsp).
+  intros E ro q t HT WT UE H1 Hs Hbd Hl Hsp.
+  exact (free_spelling E ro q t HT WT UE (std_domain E ro q H1 Hs Hbd Hl) Hsp).
 Qed.
 
 Theorem std_accept_results :
   forall (E : env) re_ok rf rs (q : query) (t : ustr) (d ctx : json),
     tokens_ok E = true -> e_well_typed E = true -> e_unicode_escape E = true ->
     in_range (e_min_index E) (e_max_index E) 1%Z = true ->
-    std_query q = true -> bare_ok q = true ->
+    std_query q = true ->
     bounds_ok (e_min_index E) (e_max_index E) q = true -> TypedDomain.literals_ok re_ok q = true ->
     spells E q t ->
     exists q', compile E re_ok t = Ok q' /\
                compound_finditer E rf rs q' d ctx = compound_finditer E rf rs q d ctx.
 Proof.
-  intros E ro rf rs q t d ctx HT WT UE H1 Hs Hb Hbd Hl Hsp.
-  exact (free_spelling_results E ro rf rs q t d ctx HT WT UE (std_domain E ro q H1 Hs Hb Hbd Hl) Hsp).
+  intros E ro rf rs q t d ctx HT WT UE H1 Hs Hbd Hl Hsp.
+  exact (free_spelling_results E ro rf rs q t d ctx HT WT UE (std_domain E ro q H1 Hs Hbd Hl) Hsp).
 Qed.
 
 Theorem ext_accept :
   forall (E : env) re_ok (q : query) (t : ustr),
     tokens_ok E = true -> e_well_typed E = true -> e_unicode_escape E = true ->
-    ext_query q = true -> reparsable E q = true ->
+    in_range (e_min_index E) (e_max_index E) 1%Z = true ->
+    ext_query q = true ->
     bounds_ok (e_min_index E) (e_max_index E) q = true -> TypedDomain.literals_ok re_ok q = true ->
     spells E q t ->
     exists q', compile E re_ok t = Ok q' /\ norm_query q' = norm_query q.
 Proof.
-  intros E ro q t HT WT UE Hs Hr Hbd Hl Hsp.
-  exact (free_spelling E ro q t HT WT UE (ext_domain E ro q Hs Hr Hbd Hl) Hsp).
+  intros E ro q t HT WT UE H1 Hs Hbd Hl Hsp.
+  exact (free_spelling E ro q t HT WT UE (ext_domain E ro q H1 Hs Hbd Hl) Hsp).
+Qed.
+
+Theorem ext_accept_results :
+  forall (E : env) re_ok rf rs (q : query) (t : ustr) (d ctx : json),
+    tokens_ok E = true -> e_well_typed E = true -> e_unicode_escape E = true ->
+    in_range (e_min_index E) (e_max_index E) 1%Z = true ->
+    ext_query q = true ->
+    bounds_ok (e_min_index E) (e_max_index E) q = true -> TypedDomain.literals_ok re_ok q = true ->
+    spells E q t ->
+    exists q', compile E re_ok t = Ok q' /\
+               compound_finditer E rf rs q' d ctx = compound_finditer E rf rs q d ctx.
+Proof.
+  intros E ro rf rs q t d ctx HT WT UE H1 Hs Hbd Hl Hsp.
+  exact (free_spelling_results E ro rf rs q t d ctx HT WT UE (ext_domain E ro q H1 Hs Hbd Hl) Hsp).
 Qed.
 
 (* ---- where typing and the compiler differ ---------------------------------------------------- *)
 
 Definition ro1 : ustr -> option bool := fun _ => Some true.
 
-(* the transcription types an index standing alone at path level; it has no text *)
-Example typed_bare_index :
-  let q := mkQuery (mkPath false (PCons (GSel (SIndex 1)) PNil)) [] in
-  std_query q = true /\ bare_ok q = false /\ reparsable default_env q = false /\
-  match query_text default_env q with Ok t => compile default_env ro1 t | Err e => Err e end = Err (EJsonPath KSyntax).
-Proof. vm_compute. repeat split; reflexivity. Qed.
+(* forms that no text denotes are not typed: an index standing alone at path level, `undefined` as a
+   function argument (both were typed by an earlier, less precise transcription) *)
+Example bare_index_not_typed :
+  std_query (mkQuery (mkPath false (PCons (GSel (SIndex 1)) PNil)) []) = false /\
+  ext_query (mkQuery (mkPath false (PCons (GSel (SIndex 1)) PNil)) []) = false.
+Proof. vm_compute. split; reflexivity. Qed.
 
-(* with the extensions the transcription types  match(undefined, 'a') ; the parser refuses `undefined` as
-   a function argument *)
-Example typed_undefined_argument :
-  let q := mkQuery (mkPath false (PCons (GList (LCons (SFilter
-             (FFunc tname_match (ECons FUndefined (ECons (FStr [97%N]) ENil)))) LNil)) PNil)) [] in
-  ext_query q = true /\ gate_query (e_min_index default_env) (e_max_index default_env) q = true /\
-  reparsable default_env q = false /\
-  match query_text default_env q with Ok t => compile default_env ro1 t | Err e => Err e end = Err (EJsonPath KSyntax).
-Proof. vm_compute. repeat split; reflexivity. Qed.
+Example undefined_argument_not_typed :
+  ext_query (mkQuery (mkPath false (PCons (GList (LCons (SFilter
+     (FFunc tname_match (ECons FUndefined (ECons (FStr [97%N]) ENil)))) LNil)) PNil)) []) = false.
+Proof. vm_compute. reflexivity. Qed.
 
 (* the converse fails: the compiler accepts a comparison whose operand is itself a comparison,
    $[?(@.a == 1) == true] , which RFC 9535 typing refuses *)
@@ -609,3 +620,29 @@ Example compiled_not_typed :
   exists q, compile default_env ro1 [36; 91; 63; 40; 64; 46; 97; 32; 61; 61; 32; 49; 41; 32; 61; 61; 32; 116; 114; 117; 101; 93]%N = Ok q /\
             ext_query q = false.
 Proof. eexists. split; vm_compute; reflexivity. Qed.
+
+(* ... and it is not the only place: each of the following texts compiles (default environment) to a
+   query the typing refuses, so no single relaxation of the typing gives the converse.  The tight
+   description of what compiles is the domain itself (RoundTrip.compiled_domain: gate, printable,
+   reparsable, float-stable); the typing is inside it (std_domain, ext_domain). *)
+Definition compiles_untyped (s : ustr) : bool :=
+  match compile default_env ro1 s with Ok q => negb (ext_query q) | Err _ => false end.
+
+Example compiled_not_typed_more :
+  (* $[?undefined]   $[?#]   $[?[1]] : a test that is 'undefined', the current key, a list literal *)
+  compiles_untyped [36; 91; 63; 117; 110; 100; 101; 102; 105; 110; 101; 100; 93]%N = true /\
+  compiles_untyped [36; 91; 63; 35; 93]%N = true /\
+  compiles_untyped [36; 91; 63; 91; 49; 93; 93]%N = true /\
+  (* $[?!@.a == 1] : a negation as a comparison operand *)
+  compiles_untyped [36; 91; 63; 33; 64; 46; 97; 32; 61; 61; 32; 49; 93]%N = true /\
+  (* $[?@.a =~ 'x']   $[?@.a == /x/] : =~ without a regex literal, a regex literal compared with == *)
+  compiles_untyped [36; 91; 63; 64; 46; 97; 32; 61; 126; 32; 39; 120; 39; 93]%N = true /\
+  compiles_untyped [36; 91; 63; 64; 46; 97; 32; 61; 61; 32; 47; 120; 47; 93]%N = true /\
+  (* $[?undefined in @.a] : 'undefined' as a membership operand *)
+  compiles_untyped [36; 91; 63; 117; 110; 100; 101; 102; 105; 110; 101; 100; 32; 105; 110; 32; 64; 46; 97; 93]%N = true /\
+  (* $[?isinstance(@.a, 'x')] : the library's extra functions (compile time; evaluation is outside the model) *)
+  compiles_untyped [36; 91; 63; 105; 115; 105; 110; 115; 116; 97; 110; 99; 101; 40; 64; 46; 97; 44; 32; 39; 120; 39; 41; 93]%N = true /\
+  (* $..   and a slice standing alone at path level,  $.a 1:2 *)
+  compiles_untyped [36; 46; 46]%N = true /\
+  compiles_untyped [36; 46; 97; 32; 49; 58; 50]%N = true.
+Proof. vm_compute. repeat split; reflexivity. Qed.
